@@ -509,3 +509,98 @@ impl fmt::Debug for Condvar {
     f.write_str("Condvar(..)")
   }
 }
+
+
+// ---- Once / OnceLock -------------------------------------------------------------------------
+
+/// Facade for `std::sync::Once`: the initialisation runs under a facade mutex, so that a second
+/// caller blocks at a point the scheduler sees, and a recursive `call_once` from inside the
+/// closure - which std documents as a deadlock - is reported as a self-deadlock of the run instead
+/// of blocking the OS thread.
+pub struct Once {
+  m: Mutex<()>,
+  done: std::sync::atomic::AtomicBool,
+}
+
+impl Once {
+  pub const fn new() -> Once {
+    Once { m: Mutex::new(()), done: std::sync::atomic::AtomicBool::new(false) }
+  }
+  #[track_caller]
+  pub fn call_once<F: FnOnce()>(&self, f: F) {
+    if self.done.load(std::sync::atomic::Ordering::Acquire) {
+      return;
+    }
+    let _g = match self.m.lock() {
+      Ok(g) => g,
+      Err(p) => p.into_inner(),
+    };
+    if !self.done.load(std::sync::atomic::Ordering::Acquire) {
+      f();
+      self.done.store(true, std::sync::atomic::Ordering::Release);
+    }
+  }
+  pub fn is_completed(&self) -> bool {
+    self.done.load(std::sync::atomic::Ordering::Acquire)
+  }
+}
+
+impl Default for Once {
+  fn default() -> Once {
+    Once::new()
+  }
+}
+
+impl fmt::Debug for Once {
+  fn fmt(&self, f: &mut fmt::Formatter<'_>) -> fmt::Result {
+    f.write_str("Once { .. }")
+  }
+}
+
+/// Facade for `std::sync::OnceLock` (same idea: the initialiser runs under a facade mutex)
+pub struct OnceLock<T> {
+  m: Mutex<()>,
+  cell: std::sync::OnceLock<T>,
+}
+
+impl<T> OnceLock<T> {
+  pub const fn new() -> OnceLock<T> {
+    OnceLock { m: Mutex::new(()), cell: std::sync::OnceLock::new() }
+  }
+  pub fn get(&self) -> Option<&T> {
+    self.cell.get()
+  }
+  pub fn set(&self, value: T) -> Result<(), T> {
+    let _g = match self.m.lock() {
+      Ok(g) => g,
+      Err(p) => p.into_inner(),
+    };
+    self.cell.set(value)
+  }
+  #[track_caller]
+  pub fn get_or_init<F: FnOnce() -> T>(&self, f: F) -> &T {
+    if let Some(v) = self.cell.get() {
+      return v;
+    }
+    let _g = match self.m.lock() {
+      Ok(g) => g,
+      Err(p) => p.into_inner(),
+    };
+    self.cell.get_or_init(f)
+  }
+  pub fn into_inner(self) -> Option<T> {
+    self.cell.into_inner()
+  }
+}
+
+impl<T> Default for OnceLock<T> {
+  fn default() -> OnceLock<T> {
+    OnceLock::new()
+  }
+}
+
+impl<T: fmt::Debug> fmt::Debug for OnceLock<T> {
+  fn fmt(&self, f: &mut fmt::Formatter<'_>) -> fmt::Result {
+    self.cell.fmt(f)
+  }
+}
